@@ -256,6 +256,18 @@ func bsigRun(args []string) error {
 						h.Add("X-Multi", "a")
 						h.Add("X-Multi", "b")
 					}
+					// header names that mean something to ANOTHER layer of the format (content negotiation of the b1 index, the
+					// signed-exchange layer) are ordinary response headers of the one representation of this URL
+					if si%2 == 1 && i == 0 {
+						h.Add("Variants", "Accept-Language;en")
+						h.Add("Variant-Key", "en")
+						h.Add("Vary", "Accept-Language")
+					}
+					if si%2 == 1 && i == 2 {
+						h.Add("Variants", "Accept-Encoding;gzip;br, Accept-Language;en")
+						h.Add("Link", "<https://c.example/s.css>;rel=preload")
+						h.Add("Signature", "unrelated;sig=*AAAA*")
+					}
 					b.Exchanges = append(b.Exchanges, &bundle.Exchange{Request: bundle.Request{URL: u}, Response: bundle.Response{Status: 200 + i, Header: h, Body: body}})
 					orig = append(orig, ints(body))
 				}
